@@ -17,7 +17,7 @@ RULE = (
 	'generation from VERIF_SEED: public keys (random, structured, and tests/vectors/*/crypto/1.test-address.json with their expected '
 	'strings) x {Symbol, NEM} x {mainnet 0x68, testnet 0x98, vector identifiers 0x78/0xA8/0x60, random and boundary custom identifiers '
 	'incl. 0, 255 and the refused 256+}; for every derived address: bytes, text, parse, validity on its own network and on other '
-	'identifiers; a string stream built from valid texts by one edit each (character outside the alphabet, lower case, wrong length, '
+	'identifiers; a string stream built from valid texts by one edit each (character outside the alphabet, lower case, wrong length, characters inserted into / deleted from a valid string - separators, invisible characters, look-alikes, repeated characters, singly, several, at either end, grouped every 4/6/8 -, '
 	'padding character, white space / line ends before, after and instead of the last character, other network kind, wrong identifier, each checksum byte perturbed, structured wrong checksums (every other window digest[k:k+n] of the checksum hash, rotations, reversal, swaps, XOR-cancelling and sum-preserving byte differences, the checksum of another network byte / without the network byte / under the other chain hash, zero-padded prefixes and suffixes, stray bytes before and after the right checksum) through text and bytes, each hash byte region perturbed, Symbol '
 	'last-character aliases) plus random alphabet / non-alphabet strings; an address-bytes stream (derived, every checksum byte perturbed, '
 	'identifier perturbed, random 24/25-byte arrays, odd lengths through a stub). histories of calls on shared objects (one Address object: str, assign .bytes - checksum flipped, another valid address, the address of another identifier or of the other chain -, str again, validity through both entry points, Address(str(a)); one Network object for several keys in a row; public_key_to_address twice with the key object mutated in between; copies), every answer compared with the specification on the bytes the object holds at that moment. A case is distinct by its (operation, arguments).')
@@ -658,6 +658,45 @@ def structured_checksums(rng, kind, identifier, address_bytes):
 	return variants
 
 
+INSERTED = ['-', ' ', '_', '.', ':', '=', '\t', '\n', '\u200b', '\xa0', '0', '1', '8', '9', 'o', 'l', '/', ',']
+
+
+def insertion_edits(rng, identifier, text):
+	"""A valid address string with characters inserted (separators, invisible characters, look-alikes, a repeated base32
+	character) or deleted: (edit name, identifier, string). Length and alphabet are tested first, so each is to be rejected."""
+	edits = []
+	for extra in INSERTED:
+		label = f'U+{ord(extra):04X}'
+		position = rng.randrange(len(text) + 1)
+		edits.append((f'inserted-one-{label}', identifier, text[:position] + extra + text[position:]))
+		edits.append((f'inserted-start-{label}', identifier, extra + text))
+		edits.append((f'inserted-end-{label}', identifier, text + extra))
+		count = rng.randrange(2, 6)
+		positions = sorted(rng.randrange(len(text) + 1) for _ in range(count))
+		several = text
+		for offset, place in enumerate(positions):
+			several = several[:place + offset] + extra + several[place + offset:]
+		edits.append((f'inserted-{count}-{label}', identifier, several))
+		for group in (4, 6, 8):
+			grouped = extra.join(text[start:start + group] for start in range(0, len(text), group))
+			edits.append((f'grouped-every-{group}-{label}', identifier, grouped))
+		edits.append((f'inserted-and-one-removed-{label}', identifier, (text[:position] + extra + text[position:])[:-1]))
+	for _ in range(3):
+		position = rng.randrange(len(text))
+		edits.append(('repeated-character', identifier, text[:position] + text[position] + text[position:]))
+		edits.append(('inserted-alphabet-character', identifier, text[:position] + rng.choice(ALPHABET) + text[position:]))
+		edits.append(('removed-character', identifier, text[:position] + text[position + 1:]))
+		second = rng.randrange(len(text) - 1)
+		removed_two = text[:position] + text[position + 1:]
+		edits.append(('removed-two-characters', identifier, removed_two[:second] + removed_two[second + 1:]))
+	mixed = text
+	for extra in rng.sample(INSERTED, 3):
+		place = rng.randrange(len(mixed) + 1)
+		mixed = mixed[:place] + extra + mixed[place:]
+	edits.append(('inserted-mixed', identifier, mixed))
+	return edits
+
+
 def load_vectors():
 	from .common import REPO
 	vectors = {}
@@ -680,7 +719,7 @@ def generate(ctx, vectors):
 					'op': 'address', 'net': kind, 'id': identifier, 'pk': entry['publicKey'], 'shipped': identifier in (0x68, 0x98) and rng.random() < 0.5,
 					'expected_text': entry[f'address_{tag}'], 'others': 2})
 		# random keys x identifiers, with string and byte neighbourhoods of each derived address
-		for _ in range(ctx.scale(1000, 10000)):
+		for _ in range(ctx.scale(1000, 8000)):
 			identifier, shipped = gen_identifier(rng)
 			public_key = gen_public_key(rng)
 			cases.append({'op': 'address', 'net': kind, 'id': identifier, 'pk': public_key.hex().upper(), 'shipped': shipped, 'others': 3})
@@ -688,6 +727,9 @@ def generate(ctx, vectors):
 			text = spec_text(address_bytes)[:KINDS[kind]['encoded']]
 			edits = string_edits(rng, kind, identifier, address_bytes, text)
 			for edit, against, edited in (edits if rng.random() < 0.25 else rng.sample(edits, 6)):
+				cases.append({'op': 'string', 'net': kind, 'id': against, 's': edited, 'edit': edit, 'shipped': shipped})
+			inserted = insertion_edits(rng, identifier, text)
+			for edit, against, edited in (inserted if rng.random() < 0.04 else rng.sample(inserted, 5)):
 				cases.append({'op': 'string', 'net': kind, 'id': against, 's': edited, 'edit': edit, 'shipped': shipped})
 			# structured wrong checksums through both entry points (bytes and, when the size fits, text)
 			variants = structured_checksums(rng, kind, identifier, address_bytes)
